@@ -44,8 +44,8 @@ def one_journal(src, mexe, idx, seed, tier):
     r = e2v.rng(seed, "c04", idx)
     name, opts, size = r.choice(c03.BASES[:2])
     jimg = c03.JImage(c03.base_image(src, name, opts, size))
-    mode = r.choice(["none", "v3"])
-    inc = {"none": 0, "v3": INCOMPAT_CSUM3}[mode] | (INCOMPAT_64BIT if r.random() < 0.5 else 0)
+    mode = r.choice(["none", "v3", "v1"])
+    inc = {"none": 0, "v3": INCOMPAT_CSUM3, "v1": V1_CHECKSUM}[mode] | (INCOMPAT_64BIT if r.random() < 0.5 else 0)
     jlen = jimg.maxlen - jimg.first
     start_rel = r.choice([0, jlen - r.randint(1, 6), r.randint(0, jlen - 1)])
     seq0 = r.choice([3, 0xFFFFFFFE, r.randint(3, 1 << 30)])
